@@ -26,7 +26,7 @@ VARIABLES wsopen,     \* the server side has not closed the websocket
           gone,       \* the client went away (its end is closed)
           inframes    \* frames from the client not yet read ("CLOSE" only)
 wvars == <<q, unf, closing, closed, intable, ev, deliv, sent, kind, pc, pk, it, resp,
-           wsopen, gone, inframes>>
+           nx, alloc, putord, wsopen, gone, inframes>>
 
 Reader == CHOOSE p \in Proc : \A o \in Proc : p <= o
 Writer == CHOOSE p \in Proc \ {Reader} : \A o \in Proc \ {Reader} : p <= o
@@ -39,6 +39,7 @@ WsInit ==
     /\ kind = [p \in Proc |-> IF p = Reader THEN "reader" ELSE IF p = Writer THEN "writer" ELSE "none"]
     /\ pc = [p \in Proc |-> IF p = Reader THEN "r_wait" ELSE IF p = Writer THEN "wait" ELSE "idle"]
     /\ pk = [p \in Proc |-> <<>>] /\ it = [p \in Proc |-> NIL] /\ resp = [p \in Proc |-> "none"]
+    /\ nx = [p \in Proc |-> "done"] /\ alloc = 0 /\ putord = <<>>
     /\ wsopen = TRUE /\ gone = FALSE /\ inframes = <<>>
 
 WsUnch == UNCHANGED <<wsopen, gone, inframes>>
@@ -48,13 +49,13 @@ WGet ==
     /\ pc[Writer] = "wait" /\ q # <<>>
     /\ it' = [it EXCEPT ![Writer] = Head(q)] /\ q' = Tail(q)
     /\ Goto(Writer, "td1")
-    /\ UNCHANGED <<unf, closing, closed, intable, ev, deliv, sent, kind, pk>> /\ WsUnch
+    /\ UNCHANGED <<unf, closing, closed, intable, ev, deliv, sent, kind, pk, aux>> /\ WsUnch
 WTd1 ==
     /\ pc[Writer] = "td1"
     /\ TaskDone
     /\ pk' = [pk EXCEPT ![Writer] = IF it[Writer] = NIL THEN <<>> ELSE <<it[Writer]>>]
     /\ Goto(Writer, IF it[Writer] = NIL THEN "w_close" ELSE "more")
-    /\ UNCHANGED <<closing, closed, intable, ev, deliv, sent, kind, it>> /\ WsUnch
+    /\ UNCHANGED <<closing, closed, intable, ev, deliv, sent, kind, it, aux>> /\ WsUnch
 \* poll() returned: frames out (ws.send is no queue primitive).  If the client is gone the
 \* send fails, the loop ends, the writer closes the websocket and returns; otherwise the next
 \* poll() calls queue.get()
@@ -72,97 +73,95 @@ WMore ==
        ELSE /\ it' = [it EXCEPT ![Writer] = Head(q)] /\ q' = Tail(q)
             /\ Goto(Writer, "td2")
             /\ UNCHANGED <<deliv, pk, wsopen>>
-    /\ UNCHANGED <<unf, closing, closed, intable, ev, sent, kind, gone, inframes>>
+    /\ UNCHANGED <<unf, closing, closed, intable, ev, sent, kind, aux, gone, inframes>>
 WTd2 ==
     /\ pc[Writer] = "td2"
     /\ TaskDone
-    /\ IF it[Writer] = NIL THEN Goto(Writer, "reput") /\ UNCHANGED pk
+    /\ IF it[Writer] = NIL
+       THEN Goto(Writer, "reput") /\ UNCHANGED pk
        ELSE pk' = [pk EXCEPT ![Writer] = Append(@, it[Writer])] /\ Goto(Writer, "more")
-    /\ UNCHANGED <<closing, closed, intable, ev, deliv, sent, kind, it>> /\ WsUnch
+    /\ UNCHANGED <<closing, closed, intable, ev, deliv, sent, kind, it, aux>> /\ WsUnch
 WReput ==
     /\ pc[Writer] = "reput"
-    /\ Put(NIL)
-    /\ Goto(Writer, "flush")
-    /\ UNCHANGED <<closing, closed, intable, ev, deliv, sent, kind, pk, it>> /\ WsUnch
+    /\ PrePut(Writer, NIL, "flush")
+    /\ UNCHANGED <<q, unf, closing, closed, intable, ev, deliv, sent, kind, pk, alloc, putord>> /\ WsUnch
 WFlushStep ==
     /\ pc[Writer] = "flush"
     /\ WFlush
-    /\ UNCHANGED <<q, unf, closing, closed, intable, ev, sent, kind, it, gone, inframes>>
+    /\ UNCHANGED <<q, unf, closing, closed, intable, ev, sent, kind, it, aux, gone, inframes>>
 \* the loop ended: ws.close() - which wakes the reader, so the scheduler may switch before the
 \* thread function returns (when the client is gone already nobody is woken: one step)
 WClose ==
     /\ pc[Writer] = "w_close"
     /\ wsopen' = FALSE
     /\ IF gone THEN Ret(Writer, "end") ELSE Goto(Writer, "w_ret")
-    /\ UNCHANGED <<q, unf, closing, closed, intable, ev, deliv, sent, kind, pk, it, gone, inframes>>
+    /\ UNCHANGED <<q, unf, closing, closed, intable, ev, deliv, sent, kind, pk, it, aux, gone, inframes>>
 WRet ==
     /\ pc[Writer] = "w_ret"
     /\ Ret(Writer, "end")
-    /\ UNCHANGED <<q, unf, closing, closed, intable, ev, deliv, sent, kind, pk, it>> /\ WsUnch
+    /\ UNCHANGED <<q, unf, closing, closed, intable, ev, deliv, sent, kind, pk, it, aux>> /\ WsUnch
 
 (* ---- reader ---- *)
 \* a CLOSE frame: receive() -> close(wait=False, abort=True), then `if self.closed: break`
-\* and the sentinel for the writer.  Session open: close() itself puts a sentinel (this step),
-\* the second one follows (RPut).  Already closed: close() is a no-op and the reader leaves
-\* the loop: its sentinel is this step's primitive.  Closing but not yet closed (another task
-\* is between the two steps of close()): nothing happens and the loop goes on (no primitive).
+\* and the sentinel for the writer.  Session open: close() itself makes a put(None) (flags and
+\* event now, then the call of the put), a second one follows.  Already closed: close() is a
+\* no-op and the reader leaves the loop: the call of its put(None).  Closing but not yet closed
+\* (another task is between the steps of close()): nothing happens and the loop goes on.
 RFrameClose ==
     /\ pc[Reader] = "r_wait" /\ inframes # <<>> /\ wsopen
     /\ inframes' = Tail(inframes)
     /\ IF closed
-       THEN /\ Put(NIL) /\ Goto(Reader, "r_join") /\ UNCHANGED <<closing, closed, ev>>
+       THEN /\ PrePut(Reader, NIL, "r_join") /\ UNCHANGED <<closing, closed, ev>>
        ELSE IF closing
-       THEN /\ Goto(Reader, "r_wait") /\ UNCHANGED <<q, unf, closing, closed, ev>>
-       ELSE /\ closing' = TRUE /\ ev' = Append(ev, "client") /\ closed' = TRUE /\ Put(NIL)
-            /\ Goto(Reader, "r_put")
-    /\ UNCHANGED <<intable, deliv, sent, kind, pk, it, wsopen, gone>>
-\* the socket closes under the reader (client gone, or the writer closed it): leave the loop
-\* and put the sentinel that unlocks the writer
+       THEN /\ Goto(Reader, "r_wait") /\ UNCHANGED <<closing, closed, ev, it, nx>>
+       ELSE /\ closing' = TRUE /\ ev' = Append(ev, "client") /\ closed' = TRUE
+            /\ PrePut(Reader, NIL, "r_put")
+    /\ UNCHANGED <<q, unf, intable, deliv, sent, kind, pk, alloc, putord, wsopen, gone>>
+\* the socket closes under the reader (client gone, or the writer closed it): leave the loop;
+\* the call of the put(None) that unlocks the writer
 RSocketClosed ==
     /\ pc[Reader] = "r_wait" /\ (~wsopen \/ (gone /\ inframes = <<>>))
-    /\ Put(NIL)
-    /\ Goto(Reader, "r_join")
-    /\ UNCHANGED <<closing, closed, intable, ev, deliv, sent, kind, pk, it>> /\ WsUnch
+    /\ PrePut(Reader, NIL, "r_join")
+    /\ UNCHANGED <<q, unf, closing, closed, intable, ev, deliv, sent, kind, pk, alloc, putord>> /\ WsUnch
 RPut ==
     /\ pc[Reader] = "r_put"
-    /\ Put(NIL)
-    /\ Goto(Reader, "r_join")
-    /\ UNCHANGED <<closing, closed, intable, ev, deliv, sent, kind, pk, it>> /\ WsUnch
+    /\ PrePut(Reader, NIL, "r_join")
+    /\ UNCHANGED <<q, unf, closing, closed, intable, ev, deliv, sent, kind, pk, alloc, putord>> /\ WsUnch
 \* writer_task.join(), then close(wait=False, abort=True, "transport close"); when the handler
 \* returns, the server drops the session from the table if it is closed
 RJoin ==
     /\ pc[Reader] = "r_join" /\ pc[Writer] = "done"
     /\ IF closed \/ closing
        THEN /\ Ret(Reader, "end") /\ intable' = (intable /\ ~closed)
-            /\ UNCHANGED <<q, unf, closing, closed, ev>>
-       ELSE /\ closing' = TRUE /\ ev' = Append(ev, "tclose") /\ closed' = TRUE /\ Put(NIL)
-            /\ Goto(Reader, "r_end") /\ UNCHANGED intable
-    /\ UNCHANGED <<deliv, sent, kind, pk, it>> /\ WsUnch
+            /\ UNCHANGED <<closing, closed, ev, it, nx>>
+       ELSE /\ closing' = TRUE /\ ev' = Append(ev, "tclose") /\ closed' = TRUE
+            /\ PrePut(Reader, NIL, "r_end") /\ UNCHANGED intable
+    /\ UNCHANGED <<q, unf, deliv, sent, kind, pk, alloc, putord>> /\ WsUnch
 REnd ==
     /\ pc[Reader] = "r_end"
     /\ Ret(Reader, "end") /\ intable' = FALSE
-    /\ UNCHANGED <<q, unf, closing, closed, ev, deliv, sent, kind, pk, it>> /\ WsUnch
+    /\ UNCHANGED <<q, unf, closing, closed, ev, deliv, sent, kind, pk, it, aux>> /\ WsUnch
 
 (* ---- environment ---- *)
 ClientSendsClose ==
     /\ "close" \in WsEnv /\ ~gone /\ inframes = <<>> /\ pc[Reader] = "r_wait"
     /\ inframes' = <<"CLOSE">>
-    /\ UNCHANGED <<q, unf, closing, closed, intable, ev, deliv, sent, kind, pc, pk, it, resp,
+    /\ UNCHANGED <<q, unf, closing, closed, intable, ev, deliv, sent, kind, pc, pk, it, resp, aux,
                    wsopen, gone>>
 ClientGone ==
     /\ "gone" \in WsEnv /\ ~gone /\ gone' = TRUE
-    /\ UNCHANGED <<q, unf, closing, closed, intable, ev, deliv, sent, kind, pc, pk, it, resp,
+    /\ UNCHANGED <<q, unf, closing, closed, intable, ev, deliv, sent, kind, pc, pk, it, resp, aux,
                    wsopen, inframes>>
 
 ShortStep(p) ==
     /\ p \in Others
-    /\ \/ SendBegin(p) \/ SendEnd(p)
+    /\ \/ DoPut(p) \/ SendBegin(p) \/ SendEnd(p)
        \/ DiscBegin(p) \/ DiscNil(p) \/ DiscJoin(p) \/ DiscDel(p)
     /\ WsUnch
 WsStart(p, k) == p \in Others /\ k \in {"send", "disc"} /\ Start(p, k) /\ WsUnch
 
-WriterStep == WGet \/ WTd1 \/ WMore \/ WTd2 \/ WReput \/ WFlushStep \/ WClose \/ WRet
-ReaderStep == RFrameClose \/ RSocketClosed \/ RPut \/ RJoin \/ REnd
+WriterStep == (DoPut(Writer) /\ WsUnch) \/ WGet \/ WTd1 \/ WMore \/ WTd2 \/ WReput \/ WFlushStep \/ WClose \/ WRet
+ReaderStep == (DoPut(Reader) /\ WsUnch) \/ RFrameClose \/ RSocketClosed \/ RPut \/ RJoin \/ REnd
 WsNext ==
     \/ WriterStep \/ ReaderStep
     \/ \E p \in Others : ShortStep(p) \/ \E k \in {"send", "disc"} : WsStart(p, k)
@@ -172,14 +171,12 @@ WsFairSpec == WsSpec /\ WF_wvars(WriterStep) /\ WF_wvars(ReaderStep)
                      /\ \A p \in Others : WF_wvars(ShortStep(p))
 
 WsTypeOK == /\ unf \in Nat /\ Len(q) <= unf
-            /\ pc[Reader] \in {"r_wait", "r_put", "r_join", "r_end", "done"}
-            /\ pc[Writer] \in {"wait", "td1", "more", "td2", "reput", "flush", "w_close", "w_ret", "done"}
+            /\ pc[Reader] \in {"r_wait", "r_put", "r_join", "r_end", "put", "done"}
+            /\ pc[Writer] \in {"wait", "td1", "more", "td2", "reput", "put", "flush", "w_close", "w_ret", "done"}
 \* what the writer holds counts as held (Held of EioQueueFine covers td1 / td2 / pk)
 WsNoLossNoDup == ~gone => NoLossNoDup
 \* frames leave in sending order
-WsInOrder ==
-    \A i, j \in 1..Len(MsgsOf(deliv)) : i < j =>
-        \E a, b \in 1..sent : a < b /\ MsgsOf(deliv)[i] = Msg(a) /\ MsgsOf(deliv)[j] = Msg(b)
+WsInOrder == ~gone => Everywhere = putord
 \* once the session is closed both long-lived tasks end (the reader needs the socket to close,
 \* which the writer does when it meets the sentinel)
 WsTasksEnd == closed ~> (pc[Reader] = "done" /\ pc[Writer] = "done")
